@@ -346,3 +346,29 @@ PROPS["C19"] = {
                      {"mode": "rc", "cases": 40000, "max_size": 100}],
     },
 }
+
+PROPS["C20"] = {
+    "manifest": {
+        "level_text": ("Fault enumeration on write(2): writer.c is compiled with write renamed to a shim that follows a fault plan. For small "
+                       "tables (2-4 blocks, every algorithm, pooled and not, with/without foreign prefix) EVERY write call of the fault-free "
+                       "run is hit with every short length (all lengths when the call writes <= 64 bytes, else 16 sampled incl. 1 and "
+                       "len-1) and with 1/2/5 consecutive EINTRs, and the output must be byte-identical; a hard error (EIO at every call; "
+                       "ENOSPC/EBADF/zero-return at a third each) must stop the process abnormally with a message before the API call "
+                       "returns. Random multi-fault plans on generated tables beyond that."),
+        "level_note": TRUST + " The shim forwards to the real write(2) on a memfd; how the process stops on a hard error is not prescribed (assert today), only that it does not return normally or exit 0.",
+        "technique": "fault injection/enumeration through a libc-call shim + " + PBT + " (byte-identity oracle against the fault-free run)",
+    },
+    "src": "props/C20.cpp", "extra_src": ["harness/shims/shims.c"], "shims": ["writer.wshim"],
+    "level": "fault_enumeration",
+    "rule": ("mode single: per table every (write call, short length) and (write call, EINTR run) is one evaluation (distinct by "
+             "construction, counter single_soft_faults), every (call, hard error) one forked case. mode rc: case = (table, config, plan of "
+             "1-5 faults at generated call ordinals); non-trivial = at least one planned fault was actually reached (hard: reached and the "
+             "process stopped). Distinct by FNV-1a."),
+    "expect_tags": ["fault_reached", "multi_fault", "short_write", "eintr", "hard_error_reached", "pooled"],
+    "assumptions": TABLE_ASSUME,
+    "tiers": {
+        "quick": [{"mode": "single", "kv": {"tables": 1}}, {"mode": "rc", "cases": 500, "max_size": 100}],
+        "thorough": [{"mode": "single", "kv": {"tables": 4}, "exhaustive": True, "note": "all 54 small-table configurations (64 worker slots)"},
+                     {"mode": "rc", "cases": 15000, "max_size": 100}],
+    },
+}
